@@ -114,7 +114,23 @@ def run_e2e(rec):
                            stdin=subprocess.DEVNULL, stdout=subprocess.PIPE, stderr=subprocess.PIPE, timeout=120)
         if u.returncode != 0:
             return f"fail(update exit {u.returncode})"
-        return "ok" if open(path).read() == before else "fail(update rewrote a document that passes test with the same flags)"
+        if open(path).read() != before:
+            return "fail(update rewrote a document that passes test with the same flags)"
+        # the command line layer alone: `scrut create <flags>` must record the command under the flags' values, i.e. write
+        # exactly these expectation lines (and a document that passes when it is tested without any flag)
+        if not fm and not inline and flags and "--cram-compat" not in flags:
+            created = os.path.join(root, "docs", "created.md")
+            c = subprocess.run([SCRUT_BIN, "create", "--no-color", "--format", "markdown", "-o", created] + flags + ["--", command], cwd=root, env=env,
+                               stdin=subprocess.DEVNULL, stdout=subprocess.PIPE, stderr=subprocess.PIPE, timeout=120)
+            if c.returncode != 0 or not os.path.exists(created):
+                return f"fail(create exit {c.returncode})"
+            body = open(created).read().split("\n")
+            if any(e not in body for e in exp):
+                return "fail(create did not record the command under the flags given: " + repr(open(created).read()[-160:]) + ")"
+            t = subprocess.run([SCRUT_BIN, "test", "--no-color", created], cwd=root, env=env, stdin=subprocess.DEVNULL, stdout=subprocess.PIPE, stderr=subprocess.PIPE, timeout=120)
+            if t.returncode != 0:
+                return f"fail(created document does not pass: exit {t.returncode})"
+        return "ok"
     finally:
         shutil.rmtree(root, ignore_errors=True)
 
